@@ -45,7 +45,8 @@ Tagged(e) == <<"tag", TagEnvelope, Untagged(e)>>
 (* The decoder, as the draft specifies it (section 3, and 7.2 for the      *)
 (* order of assertions): total on wire terms, Err outside the grammar.     *)
 (***************************************************************************)
-NoDigest == <<"nodigest">>
+NoDigest  == <<"nodigest">>     \* the digest element is absent
+BadDigest == <<"baddigest">>    \* an element is present in the digest's place but is not a digest
 RECURSIVE HasQuirk(_)
 HasQuirk(w) ==
   CASE w[1] = "quirk" -> TRUE
@@ -71,13 +72,13 @@ DecodeU(w) ==
                  LET r == DecodeU(w[3]) IN IF IsOk(r) THEN Ok(Wrap(Val(r))) ELSE r
             [] w[2] = TagEncrypted ->
                  IF w[3][1] # "encmsg" THEN Err("invalid encrypted message")
-                 ELSE IF w[3][2] = NoDigest THEN Err("MissingDigest")
+                 ELSE IF w[3][2] \in {NoDigest, BadDigest} THEN Err("MissingDigest")
                  ELSE IF w[3][7] # 0 THEN Err("extra elements")
                  ELSE LET p == DecodeU(w[3][5][3]) IN
                       IF IsOk(p) THEN Ok(Enc(w[3][2], w[3][3], w[3][4], Val(p), w[3][6])) ELSE p
             [] w[2] = TagCompressed ->
                  IF w[3][1] # "compmsg" THEN Err("invalid compressed")
-                 ELSE IF w[3][2] = NoDigest THEN Err("MissingDigest")
+                 ELSE IF w[3][2] \in {NoDigest, BadDigest} THEN Err("MissingDigest")
                  ELSE IF w[3][5] # 0 THEN Err("extra elements")
                  ELSE LET p == DecodeU(w[3][3][3]) IN
                       IF IsOk(p) THEN Ok(Comp(w[3][2], Val(p), w[3][4])) ELSE p
@@ -123,11 +124,13 @@ MutHere(w) ==
              \cup (IF w[2] = TagEnvelope THEN {<<"tag", TagLeaf, w[3]>>} ELSE {})
              \cup (IF w[2] = TagEncrypted /\ w[3][1] = "encmsg"
                    THEN {<<"tag", TagEncrypted, <<"encmsg", w[3][2], w[3][3], w[3][4], w[3][5], w[3][6], 1>>>>,
-                         <<"tag", TagEncrypted, <<"encmsg", NoDigest, w[3][3], w[3][4], w[3][5], w[3][6], 0>>>>}
+                         <<"tag", TagEncrypted, <<"encmsg", NoDigest, w[3][3], w[3][4], w[3][5], w[3][6], 0>>>>,
+                         <<"tag", TagEncrypted, <<"encmsg", BadDigest, w[3][3], w[3][4], w[3][5], w[3][6], 0>>>>}
                    ELSE {})
              \cup (IF w[2] = TagCompressed /\ w[3][1] = "compmsg"
                    THEN {<<"tag", TagCompressed, <<"compmsg", w[3][2], w[3][3], w[3][4], 1>>>>,
-                         <<"tag", TagCompressed, <<"compmsg", NoDigest, w[3][3], w[3][4], 0>>>>}
+                         <<"tag", TagCompressed, <<"compmsg", NoDigest, w[3][3], w[3][4], 0>>>>,
+                         <<"tag", TagCompressed, <<"compmsg", BadDigest, w[3][3], w[3][4], 0>>>>}
                    ELSE {})
         [] w[1] = "bytes" -> {<<"bytes", w[2], 1>>, <<"bytes", w[2], 2>>}   \* 1: one byte appended, 2: one byte dropped
         [] w[1] = "map1"  -> {<<"mapn", {}>>, <<"mapn", {<<w[2], w[3]>>, <<<<"uint", 99>>, w[3]>>}>>}   \* 0 / 2 entries, canonical order
